@@ -53,6 +53,19 @@ def cases(tier, rng):
                             if mode == "thread" and rng.random() < (0.0 if thorough else 0.6):
                                 continue
                             yield "exh", mk(mode, inh, [p0, p1], s)
+                            if (mode == "thread" or (cy0 == 0 and cy1 == 0)) and rng.random() < 0.5:
+                                # the same shape as public-method calls on one object with an invariant
+                                c = mk(mode, inh, [p0, [call(0, t1, cy1, 1)]], s + [1])
+                                c["asMethod"] = True
+                                yield "exh-methods", c
+    # a task spawned (context copied) while its parent is suspended in the BODY of the function: the function is not
+    # being checked at that moment, so the child's calls of it are checked like anybody's
+    for t0, t1 in itertools.product([True, False], repeat=2):
+        for by in (1, 2):
+            for cy1 in (0, 1):
+                for extra in ([], [0], [0, 0]):
+                    p0, p1 = [call(0, True, 0, by), call(0, t0, 0, 0)], [call(0, t1, cy1, 1)]
+                    yield "spawn-in-body", mk("async", ["fresh", "spawn_in_body:0"], [p0, p1], [0] + extra[:by - 1] + [1, 1, 0, 1, 0, 1])
     for _ in range(3000 if thorough else 400):
         mode = rng.choice(["async", "async", "thread"])
         n = rng.randint(2, 3)
@@ -60,7 +73,14 @@ def cases(tier, rng):
         progs = [[call(rng.randint(0, 1), rng.random() < 0.5, rng.randint(0, 2), rng.randint(0, 1)) for _ in range(rng.randint(1, 2))]
                  for _ in range(n)]
         sched = [rng.randrange(n) for _ in range(rng.randint(6, 18))]
-        yield "rnd", mk(mode, inh, progs, sched)
+        c = mk(mode, inh, progs, sched)
+        if rng.random() < 0.35:
+            c["asMethod"] = True
+            if mode == "async":
+                for t in c["tasks"]:
+                    for sp in t["calls"]:
+                        sp["condYields"] = 0
+        yield "rnd-methods" if c.get("asMethod") else "rnd", c
 
 
 def search_cases(rng, hint, n):
@@ -103,7 +123,7 @@ def nontrivial_key(case, mo):
     fs = [c["f"] for t in case["tasks"] for c in t["calls"]]
     if len(fs) == len(set(fs)):
         return None
-    return repr((case["mode"], case["inherit"], case["tasks"], case["sched"]))
+    return repr((case["mode"], case["inherit"], case["tasks"], case["sched"], case.get("asMethod", False)))
 
 
 def stats(case, mo, io, dist):
